@@ -1,0 +1,46 @@
+//go:build verif
+
+// Contracts for the deductive checker in /verif (gvc). Comments only; compiled
+// only with the build tag "verif" and then contributing no code.
+
+package index
+
+//@ property C01
+
+// ---------------------------------------------------------------------------
+// Host table of one host group (writer side): hosts is the concatenation of
+// equally sized addresses (4 or 16 bytes); host i occupies hosts[i*hs : (i+1)*hs].
+// ---------------------------------------------------------------------------
+//@ pure hgwf(hosts []byte, hs int) bool = (len(hosts) == 0 && hs >= 0) || ((hs == 4 || hs == 16) && len(hosts) % hs == 0 && len(hosts) <= 65536)
+//@ pure hostAt(hosts []byte, off int, host []byte) bool = forall(k, 0, len(host), hosts[off+k] == host[k])
+
+//@ extern bytes.Equal(a, b) r
+//@   ensures r == seq_eq(a, b)
+
+//@ func (*hostGroup).add(host) (idx, added, ok)
+//@   requires hgwf(g.hosts, g.hostSize) && (len(host) == 4 || len(host) == 16)
+//@   modifies g.hosts, g.hostSize
+//@   ensures hgwf(g.hosts, g.hostSize)
+//@   ensures rejected: implies(!ok, !added && seq_eq(g.hosts, old(g.hosts)) && g.hostSize == old(g.hostSize))
+//@   ensures found: implies(ok, g.hostSize == len(host) && int(idx)*len(host) + len(host) <= len(g.hosts) && hostAt(g.hosts, int(idx)*len(host), host))
+//@   ensures kept: implies(ok, forall(k, 0, old(len(g.hosts)), g.hosts[k] == old(g.hosts[k])))
+//@   ensures grew: implies(ok, len(g.hosts) == old(len(g.hosts)) + ite(added, len(host), 0))
+//@   ensures last: implies(ok && added, int(idx)*len(host) == old(len(g.hosts)))
+//@   ensures fresh: implies(ok && added, forall(i, 0, old(len(g.hosts))/len(host), !hostAt(old(g.hosts), i*len(host), host)))
+//@   loop 1 invariant 0 <= pos && pos <= len(g.hosts) && pos % g.hostSize == 0 && g.hostSize == len(host)
+//@   loop 1 invariant forall(i, 0, pos/len(host), !hostAt(g.hosts, i*len(host), host))
+//@   loop 1 decreases len(g.hosts) - pos
+
+//@ func (*hostGroup).popN
+//@   requires hgwf(g.hosts, g.hostSize) && 0 <= n && n*g.hostSize <= len(g.hosts)
+//@   modifies g.hosts
+//@   ensures len(g.hosts) == old(len(g.hosts)) - n*g.hostSize
+//@   ensures forall(k, 0, len(g.hosts), g.hosts[k] == old(g.hosts[k]))
+//@   ensures hgwf(g.hosts, g.hostSize)
+
+//@ func (*hostGroup).pop
+//@   requires hgwf(g.hosts, g.hostSize) && g.hostSize <= len(g.hosts)
+//@   modifies g.hosts
+//@   ensures len(g.hosts) == old(len(g.hosts)) - g.hostSize
+//@   ensures forall(k, 0, len(g.hosts), g.hosts[k] == old(g.hosts[k]))
+//@   ensures hgwf(g.hosts, g.hostSize)
